@@ -185,6 +185,7 @@ type leaf struct {
 	Decl  string
 	Exp   *ExpSchema // component created by the declaration (named Go without decoration)
 	Comp  string     // component name (§)
+	Extra string     // further declarations of the same package, written into a second file (§)
 }
 
 func leaves() []leaf {
@@ -219,6 +220,13 @@ func leaves() []leaf {
 		enum("EI16", "int16", "integer", [][2]string{{"One", "1"}, {"Two", "2"}}),
 		enum("EF", "float64", "number", [][2]string{{"Half", "0.5"}, {"Two", "2"}}),
 		enum("EB", "bool", "boolean", [][2]string{{"Yes", "true"}, {"No", "false"}}),
+		// the same enum written differently: constants in two const blocks, in two files, numbered by iota
+		{Name: "enum-string-two-const-blocks", Go: "EBk§", Kinds: []string{"$ref:EBk§"}, Comp: "EBk§", Exp: &ExpSchema{Kind: "enum", Values: []string{"a", "b", "c"}, Base: "string"},
+			Decl: "type EBk§ string\n\nconst EBk§A EBk§ = \"a\"\n\nconst (\n\tEBk§B EBk§ = \"b\"\n\tEBk§C EBk§ = \"c\"\n)\n"},
+		{Name: "enum-string-constants-in-two-files", Go: "EFl§", Kinds: []string{"$ref:EFl§"}, Comp: "EFl§", Exp: &ExpSchema{Kind: "enum", Values: []string{"a", "b", "c"}, Base: "string"},
+			Decl: "type EFl§ string\n\nconst (\n\tEFl§A EFl§ = \"a\"\n\tEFl§B EFl§ = \"b\"\n)\n", Extra: "const EFl§C EFl§ = \"c\"\n"},
+		{Name: "enum-int-iota", Go: "EIo§", Kinds: []string{"$ref:EIo§"}, Comp: "EIo§", Exp: &ExpSchema{Kind: "enum", Values: []string{"0", "1", "2"}, Base: "integer"},
+			Decl: "type EIo§ int\n\nconst (\n\tEIo§Zero EIo§ = iota\n\tEIo§One\n\tEIo§Two\n)\n"},
 		{Name: "alias-typedef", Go: "TS§", Kinds: []string{"$ref:TS§", "string"}, Decl: "type TS§ string\n", Comp: "TS§", Exp: &ExpSchema{Kind: "alias", Base: "string"}},
 		{Name: "alias-typedef-int", Go: "TI§", Kinds: []string{"$ref:TI§", "integer"}, Decl: "type TI§ int\n", Comp: "TI§", Exp: &ExpSchema{Kind: "alias", Base: "integer"}},
 		{Name: "alias-assigned", Go: "AS§", Kinds: []string{"$ref:AS§", "string"}, Decl: "type AS§ = string\n", Comp: "AS§", Exp: &ExpSchema{Kind: "alias", Base: "string"}},
@@ -288,6 +296,9 @@ func (b *typeBuilder) leafCases(tier string) {
 				}
 				b.addCase(id, "type-leaf", decl, []scen.Method{usageMethod(id, usage, L)}, exp,
 					map[string]string{"leaf": lf.Name, "tag": tv.Name, "usage": usage}, imports)
+				if lf.Extra != "" {
+					b.cases[len(b.cases)-1].Unit.Files = map[string]string{id + "/more_consts.go": sub(lf.Extra)}
+				}
 			}
 		}
 	}
